@@ -53,6 +53,23 @@ fn exercise(stream: &[u8]) {
         let _ = r.seek(SeekFrom::Start(u64::MAX));
         let _ = r.read(&mut b);
     }
+    // every operation also as the FIRST one on a fresh reader (a failed operation may leave a reader that refuses everything)
+    for op in 0..8 {
+        if let Ok(mut r) = preader(stream) {
+            let mut b = [0u8; 64];
+            let _ = match op {
+                0 => r.seek(SeekFrom::End(-4)),
+                1 => r.seek(SeekFrom::End(0)),
+                2 => r.seek(SeekFrom::Start(2 * U as u64)),
+                3 => r.seek(SeekFrom::Start(3 * U as u64 + 1)),
+                4 => r.seek(SeekFrom::Start(4 * U as u64)),
+                5 => r.seek(SeekFrom::Current(2 * U as i64 + 5)),
+                6 => r.seek(SeekFrom::Start(u64::MAX)),
+                _ => r.seek(SeekFrom::End(-(U as i64) - 1)),
+            };
+            let _ = r.read(&mut b);
+        }
+    }
 }
 
 /// cmp_sizes.*/safety: a size table with arbitrary field values (untrusted footer) never crashes the reader
@@ -62,7 +79,7 @@ fn probe_hostile_size_table_no_panic() {
     let body_only = &body[..body.len() - pfooter(&[0], 0).len()];
     for (sizes, last) in [
         (vec![], 0u32), (vec![], 5), (vec![10], 2 * U as u32 + 5), (vec![10], u32::MAX), (vec![u32::MAX], 7),
-        (vec![1, 2, 3], 0), (vec![0], 0), (vec![u32::MAX; 5], u32::MAX),
+        (vec![1, 2, 3], 0), (vec![0], 0), (vec![u32::MAX; 5], u32::MAX), (vec![u32::MAX; 3], 100), (vec![u32::MAX; 5], U as u32), (vec![0x8000_0000; 4], 1),
     ] {
         let mut s = body_only.to_vec();
         s.extend_from_slice(&pfooter(&sizes, last));
